@@ -20,7 +20,7 @@ func init() {
 	register(&explore.Prop{
 		ID: "C14", Level: levelMC, Explorer: "E2 path mode (build histories, deterministic pool, owned map order) + E4 schedule explorer (concurrent builders)",
 		Instr: true,
-		Rule: "instrumented build: sync.Pool replaced by a deterministic LIFO pool, every `range` over a map iterates in an order the explorer chooses. Histories: a menu of 10 batches chosen to leave different residue in the pooled builder (more/fewer fields, terms, postings, locations; doc values on/off; larger then smaller; a build that FAILS with an unknown chunk mode); every history of length <=3 (thorough <=4) followed by every target, under chunk modes {1025, 2}; map order: for every map-range site reached, reverse and rotated orders as single deviations; schedules: 2 threads x 2 builds and 3 threads x 1 build of different batches at preemption bound 2 (scheduling points at pool/once operations and written package-level state); " +
+		Rule: "instrumented build: sync.Pool replaced by a deterministic LIFO pool, every `range` over a map iterates in an order the explorer chooses. Histories: a menu of 12 batches chosen to leave different residue in the pooled builder (more/fewer fields, terms, postings, locations; doc values on/off; larger then smaller; composite fields naming the same field under different schemas; a build that FAILS with an unknown chunk mode); every history of length <=3 (thorough <=4) followed by every target, under chunk modes {1025, 2}; map order: for every map-range site reached, reverse and rotated orders as single deviations; schedules: 2 threads x 2 builds and 3 threads x 1 build of different batches at preemption bound 2 (scheduling points at pool/once operations and written package-level state); " +
 			"oracle: bytes(target | history, order, schedule) == bytes(target | cold start, sorted order, alone); non-trivial = the pool held a recycled builder when the target build started (VerifInterimPool + PoolLen) / schedule has a preemption",
 		Assumptions: []string{"the deterministic pool models sync.Pool as LIFO reuse; the real pool may also drop objects (equivalent to a cold start, which is the baseline)", "bounded histories/menus (DESIGN.md 5 C14)", "preemption bound 2, <=3 threads; statement-level atomicity"},
 		Budget:      qBudget, Run: runC14,
@@ -62,7 +62,26 @@ func c14Menu() [][]model.Doc {
 		many(3, []string{"a", "b"}, 2, true),           // subset of the large batch's fields
 		many(8, []string{"c"}, 1, false),               // more documents, fewer terms
 		many(2, []string{"a", "b", "c"}, 6, true),
+		// two batches whose composite field names the same field under different schemas: the
+		// field id of "n" is 1 in the first and 3 in the second
+		composite([]string{"n"}),
+		composite([]string{"a", "b", "n"}),
 	}
+}
+
+// composite: documents with the given plain fields and a composite field "zall" whose locations
+// name the field "n".
+func composite(fields []string) []model.Doc {
+	var b []model.Doc
+	for i := 0; i < 2; i++ {
+		d := model.Doc{gen.IDField("k", i)}
+		for _, f := range fields {
+			d = append(d, model.Field{N: f, Len: 1, Terms: []model.Term{{T: "t", Freq: 1, Locs: []model.Loc{{P: i + 1, S: 0, E: 1}}}}})
+		}
+		d = append(d, model.Field{N: "zall", Len: 2, Terms: []model.Term{{T: "t", Freq: 2, Locs: []model.Loc{{F: "n", P: i + 1, S: 0, E: 1}, {F: "n", P: i + 5, S: 2, E: 3}}}}})
+		b = append(b, d)
+	}
+	return b
 }
 
 func buildBytes(batch []model.Doc, mode uint32) ([]byte, error) {
